@@ -395,8 +395,12 @@ BREAKING = [
      "                elif row_type != \"\":\n                    # Raise error when value is not supported.\n                    raise errors.InterfaceError(",
      "                elif row_type == \"?\":\n                    # Raise error when value is not supported.\n                    raise errors.InterfaceError(", ["C09"]),
     ("RegEx: broken expression no longer converted", "cutplace/fields.py",
-     "        except re.error as error:\n            raise errors.InterfaceError(\n                \"rule must be a valid regular expression",
-     "        except re.error as error:\n            raise ValueError(\n                \"rule must be a valid regular expression", ["C10"]),
+     "        except (re.error, OverflowError) as error:\n            raise errors.InterfaceError(\n                \"rule must be a valid regular expression",
+     "        except (re.error, OverflowError) as error:\n            raise ValueError(\n                \"rule must be a valid regular expression", ["C10"]),
+    ("DateTime: re.error of a repeated place holder escapes again", "cutplace/fields.py",
+     "        except (ValueError, re.error):", "        except ValueError:", ["C10"]),
+    ("RegEx: OverflowError of a huge repetition count escapes again", "cutplace/fields.py",
+     "        except (re.error, OverflowError) as error:", "        except re.error as error:", ["C10"]),
     ("Decimal: thousands separator accepted after the decimal separator", "cutplace/fields.py",
      "            elif self.thousands_separator and (character_to_process == self.thousands_separator):\n                if found_decimal_separator:",
      "            elif self.thousands_separator and (character_to_process == self.thousands_separator):\n                if False:", ["C02"]),
